@@ -38,6 +38,13 @@ ListNameOk(nm) == /\ Len(nm) > 0
 
 IsCmpOpTok(k) == k \in {"in", "ord", "band", "bop"}
 
+(* A quoted or raw string literal is one text with two readings: a byte string (operand of an   *)
+(* ordering operator, contains, a brace list, a call argument) or a wildcard pattern (operand of *)
+(* wildcard / strict wildcard).  Generators label the token by the reading they intended; the    *)
+(* parser reads it by position.                                                                  *)
+AsBytes(t) == IF t.k = "wild" THEN [k |-> "bytes", v |-> t.v, form |-> t.form] ELSE t
+IsStrLit(t) == (t.k = "wild") \/ (t.k = "bytes" /\ t.form \in {"q", "r"})
+
 (* brace-list item kinds admissible for a left-hand type *)
 ItemOk(T, k) == IF T.k = "Int" THEN k \in {"int", "irange"}
                 ELSE IF T.k = "Ip" THEN k \in {"ip", "cidr", "iprange"}
@@ -52,7 +59,7 @@ RECURSIVE LexLogical(_, _, _), LexSimple(_, _, _), More(_, _, _, _, _, _), Inner
 (* ---- brace list  { item* } ------------------------------------------- *)
 LexItems(c, p, T, acc) ==
   IF TokK(c, p) = "rbr" THEN [ok |-> TRUE, items |-> acc, pos |-> p + 1]
-  ELSE IF ItemOk(T, TokK(c, p)) THEN LexItems(c, p + 1, T, Append(acc, MkRhs(Tok(c, p))))
+  ELSE IF ItemOk(T, AsBytes(Tok(c, p)).k) THEN LexItems(c, p + 1, T, Append(acc, MkRhs(AsBytes(Tok(c, p)))))
   ELSE Fail
 
 (* ---- ComparisonExpr::lex_with_lhs ------------------------------------ *)
@@ -70,7 +77,7 @@ LexCmpWithLhs(c, p, d, l) ==        \* l: result of LexIndex (node = lhs, ty, po
   ELSE IF IsCont(T) /\ T.e = TBool
        THEN IF MapEachCount(lhs) > 0 THEN Fail ELSE MkTrue(p)
   ELSE
-    LET t == Tok(c, p) n == Tok(c, p + 1) IN
+    LET t == Tok(c, p) n0 == Tok(c, p + 1) n == AsBytes(n0) IN
     IF ~IsCmpOpTok(t.k) THEN Fail
     ELSE IF t.k = "in" /\ T.k \in {"Ip", "Bytes", "Int"}
          THEN IF n.k = "list"
@@ -89,8 +96,9 @@ LexCmpWithLhs(c, p, d, l) ==        \* l: result of LexIndex (node = lhs, ty, po
          THEN IF t.v = "contains"
               THEN IF n.k = "bytes" THEN Mk("Contains", MkRhs(n), p + 2) ELSE Fail
               ELSE IF t.v = "matches"
-              THEN IF n.k = "regex" /\ n.bad = "none" THEN Mk("Matches", MkRhs(n), p + 2) ELSE Fail
-              ELSE IF n.k = "wild" /\ WildValid(n.v, c.star) THEN Mk(BopName(t.v), MkRhs(n), p + 2) ELSE Fail
+              THEN IF n0.k = "regex" /\ n0.bad = "none" THEN Mk("Matches", MkRhs(n0), p + 2) ELSE Fail
+              ELSE IF IsStrLit(n0) /\ WildValid(n0.v, c.star)
+                   THEN Mk(BopName(t.v), [k |-> "wild", v |-> n0.v, str |-> TRUE], p + 2) ELSE Fail
     ELSE Fail
 
 (* ---- IndexExpr::lex_with --------------------------------------------- *)
@@ -165,7 +173,7 @@ LexCall(c, p, d, f) ==
 
 (* ---- FunctionCallArgExpr::lex_with ----------------------------------- *)
 LexArg(c, p, d) ==
-  LET t == Tok(c, p) IN
+  LET t == AsBytes(Tok(c, p)) IN
   IF t.k = "bytes" /\ t.form \in {"q", "r"}
   THEN Ok([k |-> "alit", v |-> MkRhs(t)], p + 1, TBytes)
   ELSE IF t.k = "lp" \/ t.k = "not" \/ (t.k = "quant" /\ TokK(c, p + 1) = "lp")
